@@ -55,8 +55,8 @@ def prop(pid, title, **kw):
 
 prop('C01', 'every mutator implements bounded-deque semantics', stubs=[ROT_STUB], e1_configs_thorough=['plain'])
 prop('C02', 'single-element insertion never loses an element')
-prop('C03', 'every element dropped exactly once, never while reachable', stubs=[ROT_STUB], code_failures_count=False)
-prop('C04', 'unoccupied storage is never observed', code_failures_count=False, jobs=10, stubs=[ROT_STUB])
+prop('C03', 'every element dropped exactly once, never while reachable', thorough_reach=False, stubs=[ROT_STUB], code_failures_count=False)
+prop('C04', 'unoccupied storage is never observed', thorough_reach=False, code_failures_count=False, jobs=10, stubs=[ROT_STUB])
 prop('C05', 'panicking destructor: no second drop, buffer stays valid', e1_configs=[], bounds=E2_BOUNDS,
      e2=[dict(tag='std', features=['std', 'alloc'],
               jobs=e2_jobs([(s, 1, QN5) for s in C05_SCENS] + [('FROM_ARRAY', 1, FA_Q)],
@@ -69,18 +69,18 @@ prop('C08', 'iterators obey the double-ended exact-size protocol', e1_configs_th
 prop('C09', 'drain removes exactly the range, keeps the rest in order', bounds=dict(E1=E1_BOUNDS, E2=E2_BOUNDS), e1_configs_thorough=['plain'],
      e2=[dict(tag='std', features=['std', 'alloc'], jobs=e2_jobs([('DRAIN_DROP', 3, QN5)], [('DRAIN_DROP', 3, TN5)]))])
 prop('C10', 'leaking a drain is safe', e1_configs=['default', 'plain'])
-prop('C11', 'panics exactly when documented, otherwise total', bounds=dict(E1=E1_BOUNDS, E2=E2_BOUNDS),
+prop('C11', 'panics exactly when documented, otherwise total', thorough_reach=False, bounds=dict(E1=E1_BOUNDS, E2=E2_BOUNDS),
      e2=[dict(tag='std', features=['std', 'alloc'], jobs=e2_jobs([(s, 0, QN5) for s in C11_SCENS], [(s, 0, TN5) for s in C11_SCENS]))])
 prop('C12', 'constructors and conversions')
 prop('C13', 'Eq/Ord/Hash/Debug depend only on logical contents')
 prop('C14', 'byte-stream I/O')
 prop('C16', 'embedded-io(-async) == std::io', e1_configs=['eio', 'eio-async', 'eio-both'])
-prop('C17', 'no operation allocates; builds without std/alloc', e1_configs=['nodefault', 'alloc', 'default'], only_desc='ALLOCATION', build_clause=True,
+prop('C17', 'no operation allocates; builds without std/alloc', thorough_reach=False, e1_configs=['nodefault', 'alloc', 'default'], only_desc='ALLOCATION', build_clause=True,
      stubs=['alloc::alloc::{alloc, alloc_zeroed, realloc} -> panic!("ALLOCATION")', ROT_STUB])
 C18_N = [0, 1, 3]
 C18_E2 = [(s, 0, C18_N) for s in sorted(set(C05_SCENS + C06_SCENS + C11_SCENS))] + [('FROM_ARRAY', 1, [(0, 2), (1, 3), (3, 5)])]
 C18_E2_T = [(s, 0, [0, 1, 2, 3, 4]) for s in sorted(set(C05_SCENS + C06_SCENS + C11_SCENS))] + [('FROM_ARRAY', 1, FA_Q)]
-prop('C18', 'unstable feature does not change behaviour', e1_configs=[], differential=('default', 'unstable'), stubs=[ROT_STUB],
+prop('C18', 'unstable feature does not change behaviour', thorough_reach=False, e1_configs=[], differential=('default', 'unstable'), stubs=[ROT_STUB],
      bounds=dict(E1=E1_BOUNDS, E2=E2_BOUNDS, capacities_quick=C18_N),
      e2=[dict(tag='unstable', features=['std', 'alloc', 'unstable'], order=True, baseline=dict(tag='std', features=['std', 'alloc'], baseline=None),
               jobs=dict(quick=C18_E2, thorough=C18_E2_T))])
